@@ -1,3 +1,4 @@
+import Ebu.Spec.Flow
 import Ebu.Spec.Bus
 import Ebu.Proofs.BusFrame
 /-!
@@ -85,5 +86,16 @@ example :
        .publish 1 5 false .fresh]).c.trace =
       [.filt 0 0 5 true, .enter 1 0 1 5 none false, .exit 1 0, .enter 1 1 1 5 none false, .exit 1 1] := by
   decide
+
+/-! ### obligations on the control flow of the CURRENT source (`Ebu/Generated/Flow.lean`, regenerated from /repo on every run) -/
+
+/-- OBLIGATION: publish-start callback, before-hooks (each once, outside every loop), persistence, snapshot – in this order, before the dispatch loop -/
+theorem flow_hooks_before_dispatch : Ebu.Flow.publishPrelude = true := by decide +kernel
+
+/-- OBLIGATION: after-hooks and the publish-complete callback come after the loop and the retirement, each once, outside every loop, and no path of `PublishContext` returns before them -/
+theorem flow_hooks_after_dispatch : Ebu.Flow.publishEpilogue = true := by decide +kernel
+
+/-- OBLIGATION: each of the two handler call sites sits in the `default` branch of a `select` on `ctx.Done()` (synchronous: `continue`; async goroutine: `return`) -/
+theorem flow_calls_guarded_by_ctx : Ebu.Flow.callsGuardedByCtx = true := by decide +kernel
 
 end Ebu.Props.C08
